@@ -6,19 +6,24 @@
 //! script := nm  ntasks  task*            modules = 1 + nm % 2 ("a", "b")
 //! task   := len [ mod start step* ]      module = mod % modules; start = 0: spawned by
 //!                                        at_sim_start, else by a message delivered at `start`
-//! step   := 1 d | 2 t | 3 d k x | 4 f a b | 5 p beh k b1..bk | 6 f d1 d2 | 7 d | 8
+//! step   := 1 d | 2 t | 3 d k x | 4 f a b | 5 p beh k b1..bk | 6 f d1 d2 | 7 d | 8 | 9 ch d | 10 ch
 //!   1 sleep(d)            2 sleep_until(t)       3 timeout(d, k even: sleep(x) / k odd: Flip)
 //!   4 select!{ sleep(a) => 0, sleep(b) => 1 }, f odd = `biased;`
 //!   5 interval(max(1,p)), behaviour beh%3 (0 Burst 1 Delay 2 Skip), k ticks, sleep(b_i) after tick i if b_i > 0
 //!   6 pinned sleep(d1) [f odd: polled once], reset(now + d2), await     7 Box::pin(sleep(d)) polled once, dropped
 //!   8 log
+//!   9 Box::pin(sleep(d)) polled once (registered), then sent on channel ch of the task's module
+//!   10 receive a boxed Sleep from channel ch of the task's module (log), then await it (log)
 //!
 //! Output := (len log.. fin)*  ok  end_time
 //!   log records: sleep/sleep_until/reset/drop/log -> now; timeout -> now ok(1)/elapsed(0);
-//!   select -> now branch (2 = unbiased tie); tick -> now tick_instant
+//!   select -> now branch (2 = unbiased tie); tick -> now tick_instant; hand-over -> now;
+//!   receive+await -> instant of the receive, instant the received Sleep completed
 //!   ok = Runtime::run returned Ok (no JoinError NotFinished); end_time = SimTime::now() in at_sim_end
 use des::prelude::*;
-use des::time::{interval, sleep, sleep_until, timeout, MissedTickBehavior};
+use des::time::{interval, sleep, sleep_until, timeout, MissedTickBehavior, Sleep};
+use std::collections::VecDeque;
+use std::task::Waker;
 use implrun::Cur;
 use std::future::{poll_fn, Future};
 use std::pin::Pin;
@@ -29,6 +34,56 @@ use std::task::{Context, Poll};
 static LOGS: Mutex<Vec<Vec<u64>>> = Mutex::new(Vec::new());
 static FIN: Mutex<Vec<bool>> = Mutex::new(Vec::new());
 static END: AtomicU64 = AtomicU64::new(0);
+
+/// Channels that carry boxed Sleeps between the tasks of one module: key (module, channel).
+struct Chan {
+    key: (u64, u64),
+    items: VecDeque<Pin<Box<Sleep>>>,
+    waiters: Vec<(usize, Waker)>,
+}
+static CHANS: Mutex<Vec<Chan>> = Mutex::new(Vec::new());
+
+fn with_chan<R>(key: (u64, u64), f: impl FnOnce(&mut Chan) -> R) -> R {
+    let mut chans = CHANS.lock().unwrap();
+    if let Some(c) = chans.iter_mut().find(|c| c.key == key) {
+        return f(c);
+    }
+    chans.push(Chan { key, items: VecDeque::new(), waiters: Vec::new() });
+    f(chans.last_mut().unwrap())
+}
+
+/// Queue the Sleep and wake every receiver that waits on the channel (in task order).
+fn chan_send(key: (u64, u64), s: Pin<Box<Sleep>>) {
+    let mut ws = with_chan(key, |c| {
+        c.items.push_back(s);
+        std::mem::take(&mut c.waiters)
+    });
+    ws.sort_by_key(|w| w.0);
+    for (_, w) in ws {
+        w.wake();
+    }
+}
+
+struct Recv {
+    key: (u64, u64),
+    k: usize,
+}
+
+impl Future for Recv {
+    type Output = Pin<Box<Sleep>>;
+    fn poll(self: Pin<&mut Self>, cx: &mut Context<'_>) -> Poll<Self::Output> {
+        let k = self.k;
+        with_chan(self.key, |c| match c.items.pop_front() {
+            Some(s) => Poll::Ready(s),
+            None => {
+                if !c.waiters.iter().any(|w| w.0 == k) {
+                    c.waiters.push((k, cx.waker().clone()));
+                }
+                Poll::Pending
+            }
+        })
+    }
+}
 
 fn main() {
     implrun::run_main(run_line)
@@ -56,6 +111,8 @@ enum Step {
     Reset(bool, u64, u64),
     DropSleep(u64),
     Log,
+    HandOver(u64, u64),
+    RecvAwait(u64),
 }
 
 #[derive(Clone, Debug)]
@@ -121,13 +178,21 @@ fn dec_steps(b: &[u64]) -> Vec<Step> {
                 out.push(Step::Log);
                 i += 1;
             }
+            9 if left >= 2 => {
+                out.push(Step::HandOver(b[i + 1], b[i + 2]));
+                i += 3;
+            }
+            10 if left >= 1 => {
+                out.push(Step::RecvAwait(b[i + 1]));
+                i += 2;
+            }
             _ => break,
         }
     }
     out
 }
 
-async fn interpret(k: usize, steps: Vec<Step>) {
+async fn interpret(k: usize, m: u64, steps: Vec<Step>) {
     for s in steps {
         match s {
             Step::Sleep(d) => {
@@ -206,6 +271,22 @@ async fn interpret(k: usize, steps: Vec<Step>) {
                 log(k, &[now()]);
             }
             Step::Log => log(k, &[now()]),
+            Step::HandOver(ch, d) => {
+                let mut s = Box::pin(sleep(ns(d)));
+                poll_fn(|cx| {
+                    let _ = s.as_mut().poll(cx);
+                    Poll::Ready(())
+                })
+                .await;
+                chan_send((m, ch), s);
+                log(k, &[now()]);
+            }
+            Step::RecvAwait(ch) => {
+                let s = Recv { key: (m, ch), k }.await;
+                log(k, &[now()]);
+                s.await;
+                log(k, &[now()]);
+            }
         }
     }
     FIN.lock().unwrap()[k] = true;
@@ -219,7 +300,7 @@ struct ScriptModule {
 impl ScriptModule {
     fn spawn(&self, k: usize) {
         let steps = self.tasks[k].steps.clone();
-        current().join(tokio::spawn(interpret(k, steps)));
+        current().join(tokio::spawn(interpret(k, self.m, steps)));
     }
 }
 
@@ -268,6 +349,7 @@ fn run_line(nums: &[u64]) -> Vec<u64> {
     *LOGS.lock().unwrap() = vec![Vec::new(); tasks.len()];
     *FIN.lock().unwrap() = vec![false; tasks.len()];
     END.store(0, SeqCst);
+    CHANS.lock().unwrap().clear();
 
     let names = ["a", "b"];
     let mut sim = Sim::new(());
